@@ -228,6 +228,15 @@ def main():
         st, exp = c12.run_all(v, hists, wd, tier, pid="C14", ls_after=("mkdir", "rmdir", "unlink", "symlink", "rename", "open"))
         states += st["states"]
         trans += st["transitions"]
+        # (b') host faults in the path operations: mkdir / rmdir / unlink / rename / symlink / readlink / stat fail in the host
+        # with each error POSIX lists for them: the translated number, nothing stored, tree unchanged
+        frng = random.Random(SEED + 14014)
+        fh = wasi.fault_histories(frng, wasi.PATH_FAULTS, 5 if tier == "quick" else None)
+        fst, _ = wasi.run_fault_histories(v, fh, wd, "hostfault")
+        states += fst["states"]
+        trans += fst["transitions"]
+        st["compared"] += fst["compared"]
+        st["distinct"] += fst["distinct_faults"]
         # (c) directory listings: code -> spec
         exe = wasi.build_driver(wd, name="wasidrv2")
         plans, outs = readdir_scenarios(rng, tier, exe, wd)
@@ -283,11 +292,14 @@ def main():
            "rule": "resolvePath: the full grid of ResolvePath.tla (directory length x trailing separator x path length 0..2*PATH_MAX x absolute) as calls "
                    "of the real function with an unterminated guest path in front of a PROT_NONE page and a PATH_MAX result buffer in front of "
                    "another (ASan); path operations: histories of mkdir/rmdir/unlink/rename/symlink/readlink/path_filestat_get/path_open relative to "
-                   "the pre-open or a directory descriptor, errno, guest bytes and the host tree compared with WasiFs.tla after each call; readdir: "
+                   "the pre-open or a directory descriptor, errno, guest bytes and the host tree compared with WasiFs.tla after each call; host faults: the "
+                   "host function behind a path operation fails (link-level injection) with each error POSIX lists for it and the call must return "
+                   "its WASI number and change nothing (WasiFs.CallWithFault); readdir: "
                    "directories of 0..12 entries (names 1..40 bytes, files/dirs/symlinks), listings under buffer sizes 24..4096 and cookies "
                    "{0, any returned d_next}, each call compared by TLC (Readdir.tla) with the function of the stream learned from the first listing, "
                    "which itself must contain every created name once with the lstat'ed inode and type",
-           "resolve_grid": len(grid), "path_histories": len(hists), "readdir_calls": len(trace), "exhaustive": False}
+           "resolve_grid": len(grid), "path_histories": len(hists), "host_fault_histories": len(fh),
+           "host_faults": {k: fst[k] for k in ("faults_fired", "faults_not_reached", "distinct_faults")}, "readdir_calls": len(trace), "exhaustive": False}
     return v.finish("model_checking", cov,
                     ["directory order, inode numbers and cookie values are the host's (bound from the first listing, never predicted)",
                      "renames of directories and operations through a file descriptor as directory are left unspecified by the model"])
